@@ -318,7 +318,10 @@ def norm(v):
     if isinstance(v, (bool, np.bool_)):
         return ('b', bool(v))
     if isinstance(v, (int, float, np.integer, np.floating)):
-        f = float(v)
+        try:
+            f = float(v)
+        except OverflowError:           # an integer beyond the range of a double
+            return ('bigint', int(v))
         if f != f:
             return ('nan',)
         return ('n', f if f != 0 else 0.0)
